@@ -159,6 +159,18 @@ static void roundtrip(const S &data)
     if (ST::base64_encode(cb) != b) v("base64_encode:buffer-overload-differs", show(data));
     vrt::evals();
     decode_both("base64", b, false);
+    // results assigned to variables that already hold something (a short result over a long value and the reverse):
+    // "decode back to the original bytes" is about what the caller ends up holding
+    {
+        ST::string enc("a previous value that is long enough to live on the heap"), enc2("short");
+        ST::char_buffer dec("another previous value, also long enough for the heap", 53), dec2("tiny", 4);
+        enc = ST::hex_encode(in.data(), in.size()); enc2 = ST::base64_encode(in.data(), in.size());
+        dec = ST::hex_decode(enc); dec2 = ST::base64_decode(enc2);
+        vrt::evals(4);
+        if (vrt::str_of(enc) != hxs || vrt::str_of(enc2) != bs) v("encode:assigned-over-previous-value", sfmt("data=%s hex=%s base64=%s", show(data).c_str(), vrt::str_of(enc).c_str(), vrt::str_of(enc2).c_str()));
+        if (S(dec.data(), dec.size()) != data || S(dec2.data(), dec2.size()) != data || dec.data()[dec.size()] != 0 || dec2.data()[dec2.size()] != 0)
+            v("decode:assigned-over-previous-value", sfmt("data=%s hex gave %s base64 gave %s", show(data).c_str(), vrt::hex(dec.data(), dec.size()).c_str(), vrt::hex(dec2.data(), dec2.size()).c_str()));
+    }
 }
 
 static void c14_body()
